@@ -13,7 +13,10 @@ Bursts == {Sc("burst", t, "idle", s, n) : t \in {"int", "vector"}, s \in BOOLEAN
 \* a scheduled closure that schedules n further closures itself (on the Internal backend some of them then run nested
 \* inside the parent once the thread's task pipe is full, i.e. for n > 256)
 Nested == {Sc("nested", "vector", "idle", s, n) : s \in BOOLEAN, n \in {10, 600, 3000}}
-Scenarios == ATasks \cup Asyncs \cup Bursts \cup Nested
+\* a burst after which the tasking system is initialised again (with fewer / more / the same number of threads) while
+\* closures are still queued: what was scheduled before must still run exactly once
+Reinit == {Sc("reinit", "vector", f, s, n) : f \in {"fewer", "more", "same"}, s \in BOOLEAN, n \in {10, 1000}}
+Scenarios == ATasks \cup Asyncs \cup Bursts \cup Nested \cup Reinit
 ASSUME PrintT(<<"SCENARIOS", Cardinality(Scenarios)>>)
 ASSUME ndJsonSerialize(IOEnv.OUT, SetToSeq(Scenarios))
 VARIABLE x
